@@ -434,7 +434,9 @@ REC_NAMES_SPAN = {2: "screen header", 3: "row cells via the abstraction function
 PROPS = {
     "C01": {"tags": [2], "ppref": ("C01",), "batches": [
         B("hostile", 500, 3000, tags=[]), B("mixed", 300, 1800, tags=[]), B("hostile", 150, 900, modes="1", tags=[]),
-        B("gclusters", 150, 900, modes="1", tags=[])]},   # grapheme clusters and their pieces: crashes and accessors only
+        B("gclusters", 150, 900, modes="1", tags=[]),   # grapheme clusters and their pieces: crashes and accessors only
+        B("c09", 300, 1800, tags=[]), B("c09cut", 100, 600, tags=[]),   # the syntax space of control strings (OSC/DCS bodies, odd terminators)
+        B("c06", 150, 900, tags=[]), B("c18", 100, 600, tags=[])]},     # scroll/insert/delete with large counts inside regions; resizes
     "C02": {"tags": SCREEN, "ppref": ("C02",), "batches": [
         B("mixed", 150, 900, modes="1"),
         B("mixed", 500, 3000), B("hostile", 300, 1800, tags=[2]), B("stepall", 200, 1200, step=True),
